@@ -42,7 +42,7 @@ add("C10", "exhaustive enumeration of bounded string tree + full code-point swee
 add("C11", "exhaustive enumeration of bounded string tree + full code-point sweep against the decomposition tags of UnicodeData",
     "All strings of length <= 5/7 over 13 symbols and every scalar value in 7 templates through width_mapping_rule of both username profiles; per-character oracle from the <wide>/<narrow> tags read by an independent reader; idempotence on every output.",
     TB_UCD, "DESIGN.md 4/C11")
-add("C12", "exhaustive enumeration of all space/non-space patterns up to a length bound + full code-point sweep",
+add("C12", "exhaustive enumeration of all space/non-space patterns up to a length bound + complete W-method suite of the Mealy specification + full code-point sweep",
     "All strings of length <= 7/9 over {U+0020, Zs of 2 and 3 bytes, letters of 1-4 bytes} (134M at 9) and every scalar value in 7 templates through the Nickname and OpaqueString additional mapping rules; oracle = split/join specification; idempotence on every output.",
     TB_UCD, "DESIGN.md 4/C12")
 add("C13", "explicit-state search: all functions on a k-element universe x all starts",
